@@ -8,6 +8,9 @@ BASE = ("go/types + go/ssa (x/tools v0.29.0) faithful IR; stdlib contracts as do
         "(DESIGN.md section 3); caller-supplied io.Reader/io.Writer obey their contracts")
 
 CHECKS = {
+ "C01": dict(level="other", ref="§4 C01",
+   text="Round-trip equality of runtime values is not statically decidable here; decided are its structural necessary conditions, by abstract co-simulation on the SSA form. Packet states are built by evaluating the public constructor and setters on abstract values (lengths with identity tags, representative integers; none/all/each setter alone/all-but-one/all subsets of guard-relevant setters, with and without a will). The encoder is evaluated with the wire primitives observed (field-level event sequence); the decoder's own code (guards, sequential reader, property loop, post-processing) is evaluated on the resulting token stream with the wire primitives replaced by their contracts. Checked: the decoder reads exactly what was written into destinations of the same wire kind and consumes the frame without error; every exported accessor (incl. the nested will) returns the same on the decoded state; every settable field is emitted in some state; re-encoding gives the same token stream; per wire kind the encoder/decoder primitives are structurally inverse (same N and byte order, prefix=len, region [2,2+len)).",
+   technique="static analysis: abstract interpretation of encoder and decoder SSA over a layout domain (abstract co-simulation) + structural pairing rules for the wire primitives"),
  "C12": dict(level="other", ref="§4 C12",
    text="Every exported SetX/X() pair of the 15 packet types and TopicFilter is evaluated on the SSA form as transition function and decision function over abstract receiver states (all 256 values of every flag byte the setter reads, zero and all-ones backgrounds) and abstract arguments (all booleans, representative bytes, boundary integers, lengths 0/1/2 with identity tags): pairing (X() returns the value set; SetQoS: 0..3, else 0), frame (no other zero-argument accessor of the type changes) and derived flags (CONNECT user-name/password flags iff non-empty; SetWill mirrors will flag, retain and QoS bits). Pairing + frame give last-write-wins for every finite setter sequence by induction. Adders and the encoded frame are C01's.",
    technique="static analysis: evaluation of extracted transition/decision functions over a finite abstract domain (no library code is run; the SSA form is the formula)"),
